@@ -228,15 +228,18 @@ def build():
     CONNCB['ensures'] = CONNCB['ensures'] + ['blk.pending_conns >= 1']
     CONNCB['raises'] = {k: dict(ensures=v['ensures'] + ['blk.pending_conns >= 1']) for k, v in CONNCB['raises'].items()}
     w.ext_methods['Obj.get'] = dict(params={'k': 'str'}, returns='Obj')
-    w.contract(POOLPY, 'BasePool._connect', params={'self': 'Pool', 'block': 'Block', 'started_at': 'float', 'event': 'str'}, state=PGH, returns='none',
+    w.contract(POOLPY, 'BasePool._connect', params={'self': 'Pool', 'block': 'Block', 'started_at': 'float', 'event': 'str'}, ghost={'g_unit': 'bool'}, state=PGH, returns='none',
+        # whoever awaits _connect directly must have taken the capacity unit for the connection about to be opened (tasks created by
+        # _schedule_new_conn take it right before creating the task)
+        caller_requires=['g_unit'],
         requires=[SELF, *GINVL], modifies=ALLMOD, ensures=GINVL,
         hints=dict(ext_funcs={'ConnCb.__call__': CONNCB}),
         ghost_after={'block.pending_conns -= 1': [('G_total', 'G_total - 1')],
                      'block.conns[conn] = ConnectionState()': [('G_total', 'G_total + 1'), ('block.conns[conn].g_b', 'block'), ('block.conns[conn].g_c', 'conn')]})
     w.contract(POOLPY, 'BasePool._transfer', params={'self': 'Pool', 'from_block': 'Block', 'from_conn': 'Conn', 'to_block': 'Block', 'started_at': 'float'}, state=PGH, returns='none',
-        requires=[SELF, *GINVL], modifies=ALLMOD, ensures=GINVL,
-        call_ghost={'BasePool._disconnect': {'broken': 'False'}},
-        ghost_after={'self._cur_capacity += 1': [('G_T', 'G_T - 1')]})
+        ghost={'took': 'bool'}, requires=[SELF, *GINVL, 'not took'], modifies=ALLMOD, ensures=GINVL, hints=dict(ghost_out=['took']),
+        call_ghost={'BasePool._disconnect': {'broken': 'False'}, 'BasePool._connect': {'g_unit': 'took'}},
+        ghost_after={'self._cur_capacity += 1': [('G_T', 'G_T - 1'), ('took', 'True')]})
     # ---- blocks registry
     w.ext_funcs['rolavg.RollingAverage'] = dict(params={}, optional=('history_size',), returns='Obj')
     w.ext_funcs['rolavg.RollingAverage']['params'] = {'history_size': 'int'}; w.ext_funcs['rolavg.RollingAverage']['optional'] = ('history_size',)
